@@ -119,6 +119,16 @@ func c18OpenClient(store *inmem.KVStore) (*meta.Client, error) {
 	return c, nil
 }
 
+// viol reports a violation and counts it per class/cause in the evidence.
+func (s *c18Seq) viol(class string, feats map[string]string, w c18Wit) {
+	name := "violation_" + class
+	if c := feats["cause"]; c != "" {
+		name += "_" + c
+	}
+	s.r.Event(name, 1)
+	s.r.Violation(class, feats, w)
+}
+
 func (s *c18Seq) wit(what string) c18Wit {
 	h := s.hist
 	if len(h) > 60 {
@@ -217,20 +227,16 @@ func (s *c18Seq) ts() int64 {
 		}
 		g := live[rg.Intn(len(live))]
 		var cands []int64
-		if v, ok := c18Ns(g.Start); ok {
+		if v, ok := c18Ns(g.Start); ok && v > models.MinNanoTime {
 			cands = append(cands, v, v-1, v+1)
 		}
-		if v, ok := c18Ns(g.End); ok {
+		if v, ok := c18Ns(g.End); ok && v > models.MinNanoTime+2 {
 			cands = append(cands, v, v-1, v-2)
 		}
 		if len(cands) == 0 {
 			return s.base
 		}
-		v := vkit.Pick(rg, cands)
-		if v > 0 && v-1 < 0 { // cannot happen; keeps vet quiet about the arithmetic above
-			return s.base
-		}
-		return c18Clamp(v)
+		return c18Clamp(vkit.Pick(rg, cands))
 	default:
 		return c18Clamp(rg.Int64())
 	}
@@ -290,7 +296,7 @@ func (s *c18Seq) write(tss []int64) {
 	s.hist = append(s.hist, fmt.Sprintf("write %v", tss))
 	mapping, err := s.pw.MapShards(&coordinator.WritePointsRequest{Database: c18DB, RetentionPolicy: c18RP, Points: pts})
 	if err != nil {
-		s.r.Violation("mapshards_error", map[string]string{"phase": s.phase()}, s.wit("MapShards returned "+err.Error()))
+		s.viol("mapshards_error", map[string]string{"phase": s.phase()}, s.wit("MapShards returned "+err.Error()))
 		s.aborted = true
 		return
 	}
@@ -315,13 +321,13 @@ func (s *c18Seq) write(tss []int64) {
 			seen[string(p.Key())]++
 			s.r.Event("points_mapped", 1)
 			if !ok {
-				s.r.Violation("mapped_to_unknown_shard", map[string]string{"phase": s.phase()},
+				s.viol("mapped_to_unknown_shard", map[string]string{"phase": s.phase()},
 					s.witTS(fmt.Sprintf("point mapped to shard %d which no group of the policy owns", shardID), ts))
 				continue
 			}
 			s.r.Event("containment_checked", 1)
 			if g.Deleted {
-				s.r.Violation("mapped_to_deleted_group", map[string]string{"phase": s.phase()},
+				s.viol("mapped_to_deleted_group", map[string]string{"phase": s.phase()},
 					s.witTS("point mapped to deleted group "+g.String(), ts))
 				continue
 			}
@@ -336,13 +342,13 @@ func (s *c18Seq) write(tss []int64) {
 				}
 				w := s.witTS("point routed to a group whose [start,end) does not contain its timestamp: "+g.String(), ts)
 				w.Groups = c18GroupStrings(all)
-				s.r.Violation("point_outside_mapped_group", map[string]string{"phase": s.phase(), "edge": edge}, w)
+				s.viol("point_outside_mapped_group", map[string]string{"phase": s.phase(), "edge": edge}, w)
 				continue
 			}
 			if prev, was := s.written[ts]; was && prev != g.ID && !s.tainted[prev] {
 				if pg, ok := byID[prev]; ok && !pg.Deleted {
 					w := s.witTS(fmt.Sprintf("timestamp was routed to %s before and to %s now, both live", pg, g), ts)
-					s.r.Violation("timestamp_split_across_groups", map[string]string{"phase": s.phase()}, w)
+					s.viol("timestamp_split_across_groups", map[string]string{"phase": s.phase()}, w)
 				}
 			}
 			s.written[ts] = g.ID
@@ -351,7 +357,7 @@ func (s *c18Seq) write(tss []int64) {
 	for k, ts := range key2ts {
 		if seen[k] != 1 {
 			w := s.witTS(fmt.Sprintf("point of an unlimited-retention policy appears %d times in the mapping (RetentionDropped=%d)", seen[k], mapping.RetentionDropped), ts)
-			s.r.Violation("accepted_point_not_routed_once", map[string]string{"phase": s.phase(), "times": strconv.Itoa(seen[k])}, w)
+			s.viol("accepted_point_not_routed_once", map[string]string{"phase": s.phase(), "times": strconv.Itoa(seen[k])}, w)
 		}
 	}
 }
@@ -398,7 +404,7 @@ func (s *c18Seq) checkState(phase string) {
 			if a.Start.Before(b.End) && b.Start.Before(a.End) {
 				w := s.wit(fmt.Sprintf("live groups overlap: %s and %s", a, b))
 				w.Groups = c18GroupStrings(live)
-				s.r.Violation("live_groups_overlap", map[string]string{"phase": phase}, w)
+				s.viol("live_groups_overlap", map[string]string{"phase": phase}, w)
 			}
 		}
 	}
@@ -422,7 +428,7 @@ func (s *c18Seq) checkState(phase string) {
 		if err != nil || !found {
 			w := s.witTS(fmt.Sprintf("ShardGroupsByTimeRange(ts,ts) does not return group #%d the point was routed to (err=%v)", want, err), ts)
 			w.Groups = gs
-			s.r.Violation("lookup_misses_group", map[string]string{"phase": phase}, w)
+			s.viol("lookup_misses_group", map[string]string{"phase": phase}, w)
 		}
 	}
 }
@@ -447,7 +453,7 @@ func (s *c18Seq) reload() {
 	_ = s.mc.Close()
 	mc, err := c18OpenClient(s.store)
 	if err != nil {
-		s.r.Violation("reopen_error", nil, s.wit("meta.Client.Open on the same store: "+err.Error()))
+		s.viol("reopen_error", nil, s.wit("meta.Client.Open on the same store: "+err.Error()))
 		s.aborted = true
 		return
 	}
@@ -462,7 +468,7 @@ func (s *c18Seq) reload() {
 	for _, b := range before {
 		a, ok := after[b.ID]
 		if !ok {
-			s.r.Violation("group_lost_after_reload", nil, s.wit("group "+b.String()+" is gone after reopen"))
+			s.viol("group_lost_after_reload", nil, s.wit("group "+b.String()+" is gone after reopen"))
 			s.tainted[b.ID] = true
 			continue
 		}
@@ -471,28 +477,28 @@ func (s *c18Seq) reload() {
 		if !a.Start.Equal(b.Start) {
 			w := s.wit("group start changed by persist + reload")
 			w.Before, w.After = b.String(), a.String()
-			s.r.Violation("group_bounds_changed_after_reload", map[string]string{"field": "start", "cause": c18Cause(b.Start)}, w)
+			s.viol("group_bounds_changed_after_reload", map[string]string{"field": "start", "cause": c18Cause(b.Start)}, w)
 			s.tainted[b.ID] = true
 		}
 		if !a.End.Equal(b.End) {
 			w := s.wit("group end changed by persist + reload")
 			w.Before, w.After = b.String(), a.String()
-			s.r.Violation("group_bounds_changed_after_reload", map[string]string{"field": "end", "cause": c18Cause(b.End)}, w)
+			s.viol("group_bounds_changed_after_reload", map[string]string{"field": "end", "cause": c18Cause(b.End)}, w)
 			s.tainted[b.ID] = true
 		}
 		if a.Deleted != b.Deleted {
 			w := s.wit(fmt.Sprintf("group deleted flag changed by persist + reload: %v -> %v", b.Deleted, a.Deleted))
 			w.Before, w.After = b.String(), a.String()
-			s.r.Violation("group_deleted_flag_changed_after_reload", nil, w)
+			s.viol("group_deleted_flag_changed_after_reload", nil, w)
 			s.tainted[b.ID] = true
 		}
 		if fmt.Sprint(a.Shards) != fmt.Sprint(b.Shards) {
 			w := s.wit(fmt.Sprintf("group shards changed by persist + reload: %v -> %v", b.Shards, a.Shards))
-			s.r.Violation("group_shards_changed_after_reload", nil, w)
+			s.viol("group_shards_changed_after_reload", nil, w)
 		}
 	}
 	for _, a := range after {
-		s.r.Violation("group_appeared_after_reload", nil, s.wit("group "+a.String()+" exists only after reopen"))
+		s.viol("group_appeared_after_reload", nil, s.wit("group "+a.String()+" exists only after reopen"))
 	}
 	for ts, id := range s.written {
 		if s.tainted[id] {
@@ -516,7 +522,7 @@ func (s *c18Seq) rangeQuery() {
 	for ts, id := range s.written {
 		if ts >= lo && ts <= hi && (err != nil || !have[id]) {
 			w := s.witTS(fmt.Sprintf("ShardGroupsByTimeRange(%d,%d) misses group #%d holding the timestamp (err=%v)", lo, hi, id, err), ts)
-			s.r.Violation("range_query_misses_group", map[string]string{"phase": s.phase()}, w)
+			s.viol("range_query_misses_group", map[string]string{"phase": s.phase()}, w)
 			return
 		}
 	}
@@ -528,7 +534,7 @@ func c18Run(r *vkit.Run, caseNo int) {
 	defer func() {
 		if p := recover(); p != nil {
 			w := s.wit(fmt.Sprintf("panic: %v\n%s", p, debug.Stack()))
-			r.Violation("panic", map[string]string{"phase": s.phase()}, w)
+			s.viol("panic", map[string]string{"phase": s.phase()}, w)
 		}
 	}()
 	s.store = inmem.NewKVStore()
@@ -543,7 +549,7 @@ func c18Run(r *vkit.Run, caseNo int) {
 	}
 	s.mc = mc
 	s.sgd = s.pickSGD()
-	s.focused = rg.Chance(1, 3)
+	s.focused = rg.Chance(1, 2)
 	s.pickBase()
 	zero := time.Duration(0)
 	if _, err := mc.CreateDatabaseWithRetentionPolicy(c18DB, &meta.RetentionPolicySpec{Name: c18RP, Duration: &zero, ShardGroupDuration: s.sgd}); err != nil {
@@ -586,7 +592,7 @@ func c18Run(r *vkit.Run, caseNo int) {
 			}
 			g := live[rg.Intn(len(live))]
 			if err := s.mc.DeleteShardGroup(c18DB, c18RP, g.ID); err != nil {
-				r.Violation("delete_group_error", nil, s.wit("DeleteShardGroup of live group "+g.String()+": "+err.Error()))
+				s.viol("delete_group_error", nil, s.wit("DeleteShardGroup of live group "+g.String()+": "+err.Error()))
 				continue
 			}
 			s.hist = append(s.hist, "delete group "+g.String())
@@ -604,7 +610,7 @@ func c18Run(r *vkit.Run, caseNo int) {
 			}
 			s.hist = append(s.hist, fmt.Sprintf("precreate from=%d to=%d", from, to))
 			if err := s.mc.PrecreateShardGroups(c18T(from), c18T(to)); err != nil {
-				r.Violation("precreate_error", nil, s.wit("PrecreateShardGroups: "+err.Error()))
+				s.viol("precreate_error", nil, s.wit("PrecreateShardGroups: "+err.Error()))
 				continue
 			}
 			r.Event("precreates", 1)
@@ -652,7 +658,7 @@ func TestC18(t *testing.T) {
 	r.Assume("retention duration is 0 (unlimited) in every sequence, so MapShards never consults the wall clock and every point must be routed",
 		"TruncateShardGroups (no caller in this tree) is not part of the workload")
 	r.Trust("inmem.KVStore as the persistence medium (bytes written by snapshot() are the bytes load() sees)")
-	n := r.N(2000, 200000)
+	n := r.N(8000, 200000)
 	for i := 0; i < n; i++ {
 		c18Run(r, i)
 	}
